@@ -56,6 +56,11 @@ int main(void)
     LOCK.val.val = 1; OTHERLOCK.val.val = 1;
     ULT1.thread.state.val = ABT_THREAD_STATE_BLOCKED; PL1.num_blocked.val = 1;   /* ULT1 = p_next / join target where needed */
     MSCHED.request.val = 0;
+#if KIND <= 4
+    /* a cancellation request may be pending: it must NOT be executed at a blocking point (the unit is already on a waiter
+     * list / being handed over); it is served at the unit's next yield or scheduling */
+    if (nondet_bool()) ULT0.thread.request.val = ABTI_THREAD_REQ_CANCEL;
+#endif
     vr_in_init = 0;
 #if KIND == 0
     ABTI_ythread_callback_suspend(&ULT0);
